@@ -304,10 +304,13 @@ pub enum Kind {
     LockCell,
     /// `Gc<OnceLock<OnceBody>>`: the whole value is a `OnceLock`, 1 slot, allocated empty
     OnceCell,
+    /// 3 slots held behind a `Box<dyn DynSlots<'gc>>` whose `Collect` impl comes from
+    /// `dyn_collect!`: every pointer is traced through the `DynCollect` adapter
+    DynNode,
 }
 
 impl Kind {
-    pub const ALL: [Kind; 5] = [Kind::Node, Kind::Leaf, Kind::RefNode, Kind::LockCell, Kind::OnceCell];
+    pub const ALL: [Kind; 6] = [Kind::Node, Kind::Leaf, Kind::RefNode, Kind::LockCell, Kind::OnceCell, Kind::DynNode];
     pub fn name(self) -> &'static str {
         match self {
             Kind::Node => "node",
@@ -315,6 +318,7 @@ impl Kind {
             Kind::RefNode => "refnode",
             Kind::LockCell => "lockcell",
             Kind::OnceCell => "oncecell",
+            Kind::DynNode => "dynnode",
         }
     }
     pub fn of_leaf(leaf: bool) -> Kind {
@@ -322,7 +326,7 @@ impl Kind {
     }
     pub fn nslots(self) -> usize {
         match self {
-            Kind::Node | Kind::RefNode => 3,
+            Kind::Node | Kind::RefNode | Kind::DynNode => 3,
             Kind::Leaf => 0,
             Kind::LockCell | Kind::OnceCell => 1,
         }
@@ -341,7 +345,7 @@ impl Kind {
     }
     pub fn paths(self) -> &'static [Path] {
         match self {
-            Kind::Node => &[Path::Write, Path::Raw, Path::Stb],
+            Kind::Node | Kind::DynNode => &[Path::Write, Path::Raw, Path::Stb],
             Kind::Leaf => &[],
             Kind::RefNode => &[Path::Write, Path::Raw, Path::Stb, Path::BorrowMut, Path::TryBorrowMut, Path::Unlock],
             Kind::LockCell => &[Path::Write, Path::Raw, Path::Stb, Path::LockSet, Path::Unlock],
